@@ -54,6 +54,39 @@ def main():
         viol.append(f"a worker restarted after its dead incarnation had been pruned is registered {obs['restarted_after_prune_registered']} times: "
                     "active_children(), autoclose and the SIGTERM handler do not see the live worker")
     again.terminate(timeout=1)
+    # L1 under interference: another thread registers a worker at the first moment the registry lock is free during
+    # active_children() (a legal schedule, forced here by a lock wrapper of the harness): the registration must survive
+    class SpyLock:
+        def __init__(self, inner):
+            self.inner, self.on_release = inner, None
+
+        def acquire(self, *a, **k):
+            return self.inner.acquire(*a, **k)
+
+        def release(self):
+            self.inner.release()
+            cb, self.on_release = self.on_release, None
+            if cb:
+                cb()
+
+        def __enter__(self):
+            self.inner.acquire()
+            return self
+
+        def __exit__(self, *exc):
+            self.release()
+    spy = SpyLock(Worker._children_lock)
+    Worker._children_lock = spy
+    late = []
+    spy.on_release = lambda: late.append(PersistentThreadWorker(fn))
+    list(Worker.active_children())
+    Worker._children_lock = spy.inner
+    obs['registered_during_prune_survives'] = bool(late) and sum(1 for w in Worker._active_children if w is late[0])
+    if late and obs['registered_during_prune_survives'] != 1:
+        viol.append('a worker registered by another thread while active_children() was pruning is missing from the registry afterwards '
+                    f"(registered {obs['registered_during_prune_survives']} times)")
+    for w in late:
+        w.terminate(timeout=1)
     # L3: autoclose leaves nothing alive, also when the block raises
     try:
         with autoclose_active_children():
